@@ -274,6 +274,18 @@ func r2sibDescent(fn *types.Func) bool {
 	if !ok || sig.Params().Len() == 0 {
 		return false
 	}
+	// a predicate / accessor over a node (results of basic type only) is a helper, not a walker
+	if sig.Results().Len() > 0 {
+		allBasic := true
+		for i := 0; i < sig.Results().Len(); i++ {
+			if _, ok := sig.Results().At(i).Type().Underlying().(*types.Basic); !ok {
+				allBasic = false
+			}
+		}
+		if allBasic {
+			return false
+		}
+	}
 	t := sig.Params().At(0).Type()
 	for {
 		switch u := t.(type) {
@@ -581,6 +593,10 @@ func (f *r2sibFunc) normLocal(o *types.Var, id *ast.Ident, depth int) string {
 			}
 			return f.normD(r.X, depth+1)
 		}
+		if call, ok := rhs.(*ast.CallExpr); ok && d.idx == 0 && r2sibDescent(CalleeOf(f.info, call)) {
+			// the analysed node is the first result of a walker, whatever else it reports
+			return f.normD(rhs, depth+1)
+		}
 		return fmt.Sprintf("%s#%d", f.normD(rhs, depth+1), d.idx)
 	}
 	return "local(" + o.Name() + ")"
@@ -601,6 +617,9 @@ func (f *r2sibFunc) normCall(x *ast.CallExpr, depth int) string {
 		}
 	}
 	callee := CalleeOf(f.info, x)
+	if t, ok := f.inlinePure(callee, x, depth); ok {
+		return t
+	}
 	switch fun := ast.Unparen(x.Fun).(type) {
 	case *ast.SelectorExpr:
 		if r2sibStripMethods[fun.Sel.Name] && callee != nil && callee.Type().(*types.Signature).Recv() != nil {
@@ -612,8 +631,12 @@ func (f *r2sibFunc) normCall(x *ast.CallExpr, depth int) string {
 			}
 		}
 		recv := f.normD(fun.X, depth+1)
-		if (r2sibDescent(callee) || r2sibFirstArgOnly[callee]) && len(x.Args) > 0 {
-			// the analysed sub-construct: identified by the syntax it was analysed from
+		if r2sibDescent(callee) && len(x.Args) > 0 {
+			// the analysed sub-construct: identified by the syntax it was analysed from and by the kind of
+			// result the walker returns for it (not by the walker's name, which is private to the package)
+			return "desc[" + r2sibResultRole(callee) + "](" + f.normD(x.Args[0], depth+1) + ")"
+		}
+		if r2sibFirstArgOnly[callee] && len(x.Args) > 0 {
 			return recv + "." + fun.Sel.Name + "(" + f.normD(x.Args[0], depth+1) + ")"
 		}
 		return recv + "." + fun.Sel.Name + "(" + args(x.Args) + ")"
@@ -679,4 +702,67 @@ func (f *r2sibFunc) pretty(term string) string {
 		}
 	}
 	return r2sibSubst(term, args)
+}
+
+// r2sibResultRole names a walker by what it returns: the named type of its first result.
+func r2sibResultRole(fn *types.Func) string {
+	sig, ok := fn.Type().(*types.Signature)
+	if !ok || sig.Results().Len() == 0 {
+		return "void"
+	}
+	t := sig.Results().At(0).Type()
+	for {
+		switch u := t.(type) {
+		case *types.Pointer:
+			t = u.Elem()
+			continue
+		case *types.Slice:
+			t = u.Elem()
+			continue
+		}
+		break
+	}
+	if n, ok := types.Unalias(t).(*types.Named); ok {
+		return n.Obj().Name()
+	}
+	return t.String()
+}
+
+// inlinePure: a call of a function of the analysed module whose body is a single `return <expr>` is replaced by
+// the term of that expression (parameters substituted): `isSingletonReference(t)` is `t.Kind() == K`.
+func (f *r2sibFunc) inlinePure(callee *types.Func, x *ast.CallExpr, depth int) (string, bool) {
+	if callee == nil || depth > 20 || callee.Pkg() == nil || !strings.HasPrefix(callee.Pkg().Path(), ModPath) {
+		return "", false
+	}
+	if r2sibDescent(callee) || r2sibFirstArgOnly[callee] {
+		return "", false
+	}
+	e := r2sibEngines[f.c]
+	if e == nil {
+		return "", false
+	}
+	fd := e.decls[callee]
+	if fd == nil || fd.Body == nil || len(fd.Body.List) != 1 || fd == f.fd {
+		return "", false
+	}
+	rs, ok := fd.Body.List[0].(*ast.ReturnStmt)
+	if !ok || len(rs.Results) != 1 {
+		return "", false
+	}
+	// only comparisons / boolean combinations / field reads: no further calls with effects are hidden by this
+	switch ast.Unparen(rs.Results[0]).(type) {
+	case *ast.BinaryExpr, *ast.UnaryExpr, *ast.SelectorExpr:
+	default:
+		return "", false
+	}
+	cf := r2sibFuncOf(f.c, e.declPkg[callee], fd)
+	if cf.recv != nil {
+		return "", false // methods: the receiver term would be lost
+	}
+	body := cf.normD(rs.Results[0], depth+1)
+	var args []string
+	for _, a := range x.Args {
+		args = append(args, f.normD(a, depth+1))
+	}
+	return r2sibSubst(body, args), true
 }
